@@ -96,17 +96,69 @@ CORPUS = [
     [("rule", 0, ".a .b", None), ("ext", 1, ".x .y", ".b", False, None)],
     [("rule", 0, ":not(.a)", None), ("ext", 1, ".b", ".a", False, None)],
     [("rule", 0, ":is(.a, c)", None), ("ext", 1, ".b", ".a", False, None)],
-    # X1: a chain is lost for a rule that comes after both @extend rules
+    # X1 (fixed, c66199e): a chain was lost for a rule that comes after both @extend rules; every order must agree now
     [("ext", 1, ".b", ".a", False, None), ("ext", 2, ".c", ".b", False, None), ("rule", 0, ".a", None)],
+    [("ext", 2, ".c", ".b", False, None), ("rule", 0, ".a", None), ("ext", 1, ".b", ".a", False, None)],
+    [("rule", 0, ".a", None), ("ext", 2, ".c", ".b", False, None), ("ext", 1, ".b", ".a", False, None)],
+    [("ext", 1, ".b.x", ".a", False, None), ("ext", 2, ".c", ".b", False, None), ("rule", 0, ".a", None), ("rule", 3, ".b", None)],
+    [("ext", 2, ".y:hover", "a", False, None), ("ext", 3, "b", ".y", False, None), ("rule", 1, "a", None)],
     # X2: two extensions meeting in one compound (incremental extension loses `.y > b.x`)
     [("ext", 2, "b.x", ".y", False, None), ("rule", 0, ".y > a.y", None), ("ext", 1, ".x", "a", False, None)],
     # X4 (fixed, 5015dbf): the second `MergedExtension::merge(..).unwrap()` (mod.rs:1093) panicked; now an error
     [("rule", 0, ".y", None), ("ext", 1, ".y", ".y", False, "screen"), ("ext", 2, ".y#i", ".y", False, "print")],
     # X3: weave puts `.y` between `[t]:focus` and `b`
     [("ext", 2, "[t]:focus + b", "#i", False, None), ("ext", 1, ".y ~ b[t]", "a", False, None), ("rule", 0, "#i + a.x", None)],
+    # merge_final_combinators must keep the descendant parent when the sibling compound is not dropped
+    [("rule", 0, ".a y", None), ("ext", 1, ".a.b ~ x", "y", False, None)],
+    [("rule", 0, ".a y", None), ("ext", 1, ".a.b + x", "y", False, None)],
+    [("rule", 0, ".a y", None), ("ext", 1, ".a.b > x", "y", False, None)],
+    # specificity floor with the target in a non-final compound
+    [("rule", 0, ".t b, a b", None), ("ext", 1, "a.foo", ".t", False, None)],
+    # two hops through selector pseudos, rules before and after the @extends
+    [("rule", 0, ":is(.t)", None), ("ext", 1, ".a", ".t", False, None), ("ext", 2, ".b", ".a", False, None), ("rule", 3, ":not(.t)", None)],
+    [("ext", 1, ".a", ".t", False, None), ("rule", 0, ":is(.t)", None), ("ext", 2, ".b", ".a", False, None), ("rule", 3, ":not(.t)", None)],
     # C11-S1 reaching trim: a generated selector dropped because of a wrong superselector answer
     [("rule", 0, ".t c", None), ("ext", 1, "a > b", ".t", False, None), ("ext", 2, "a > x > b", ".t", False, None)],
 ]
+
+
+def gen_chain_sheet(rng):
+    """Two-hop chains through selector pseudos, class-only extenders (no unification can fail), rules before and after."""
+    k = rng.choice(["is", "not", "where", "matches"])
+    inner = rng.choice([".t", ".t.x", "a.t", ".t, .x"])
+    rule = ("rule", 0, rng.choice([f":{k}({inner})", f"a:{k}({inner})", f".x :{k}({inner}) > a", ".t", "a.t .x"]), None)
+    e1 = ("ext", 1, rng.choice([".m", ".m.x", ".m, .n"]), ".t", False, None)
+    e2 = ("ext", 2, rng.choice([".q", ".q.y"]), ".m", False, None)
+    other = ("rule", 3, rng.choice([".m", ".x .m", ":is(.m)", ":not(.m)"]), None)
+    items = [rule, e1, e2, other]
+    rng.shuffle(items)
+    return items, meta_of(items)
+
+
+def gen_sibling_sheet(rng):
+    """`~`/`+`/`>` extenders whose leading compound is covered by the descendant parent of the target (merge_final_combinators)."""
+    P = rng.choice([".a", ".x", "a"])
+    T = rng.choice(["y", ".t", "%p"])
+    comb = rng.choice(["~", "+", ">", "~", "+"])
+    lead = P + rng.choice(["", ".b", ".q", ":hover"])
+    rule = ("rule", 0, rng.choice([f"{P} {T}", f"{P} > {T}", f"{P} {T}.z", f".w {P} {T}"]), None)
+    ext = ("ext", 1, f"{lead} {comb} {rng.choice(['x', '.e', 'x.e'])}", T, False, None)
+    items = [rule, ext]
+    rng.shuffle(items)
+    return items, meta_of(items)
+
+
+def gen_floor_sheet(rng):
+    """Second law: the target sits in a non-final compound and a more general complex of the same rule is a superselector of
+    the generated one; only the specificity floor of the extender keeps the generated complex."""
+    T = rng.choice([".t", "%p", ".t.u"][:2])
+    tail = rng.choice(["b", ".z", "b .z", "> b"])
+    gen = rng.choice(["a", "a", ".x"])
+    E = gen + rng.choice([".foo", "#i", ".foo.bar", ":hover"])
+    rule = ("rule", 0, f"{T} {tail}, {gen} {tail}", None)
+    ext = ("ext", 1, E, T, False, None)
+    items = [rule, ext] if rng.random() < 0.5 else [ext, rule]
+    return items, meta_of(items)
 
 
 def gen_sheet(rng, uid):
@@ -153,6 +205,15 @@ def gen_sheet(rng, uid):
                       rng.choice(MEDIA[1:]) if use_media and rng.random() < 0.6 else None))
         k += 1
     rng.shuffle(items)
+    if uid % 3 == 0:
+        # every third sheet cannot have a failing unification (one type, one id, one pseudo-element): incremental extension
+        # loses nothing there, so missing matches / order differences are judged strictly
+        def fix(t):
+            out, i = [], 0
+            import re as _re
+            t = _re.sub(r"(?<![\w.#:%-])b(?![\w-])", "a", t)
+            return t.replace("#j", "#i").replace(":after", "::before")
+        items = [(it[0], it[1], fix(it[2])) + ((it[3],) if it[0] == "rule" else (fix(it[3]), it[4], it[5])) for it in items]
     chain = any(any(s == T for x in E2 for p in x if not isinstance(p, str) for s in p) for E, T, _ in exts for E2, _, _ in exts)
     meta = {"complex_extender": any(len(x) > 1 for E, _, _ in exts for x in E),
             "sel_pseudo": sel_depth > 0 or any(s[0] == "sel" for E, _, _ in exts for x in E for p in x if not isinstance(p, str) for s in p),
@@ -165,6 +226,15 @@ def meta_of(items):
     return {"complex_extender": any(it[0] == "ext" and any(c in it[2].replace(", ", ",") for c in " >+~") for it in items),
             "sel_pseudo": "(" in txt, "has_not": ":not(" in txt, "media": "@media" in txt, "chain": None,
             "n_ext": sum(1 for it in items if it[0] == "ext")}
+
+
+def duplicated_selectors(items):
+    """selector texts written on more than one style rule of the sheet (extender rules included)"""
+    seen, dup = set(), set()
+    for it in items:
+        t = " ".join(it[2].split())
+        (dup if t in seen else seen).add(t)
+    return dup
 
 
 def compile_sheets(pool, sheets):
@@ -238,6 +308,11 @@ def run(tier, seed):
         sheets.append((x5, meta_of(x5)))
     for k in range(700 if not big else 3000):
         sheets.append(gen_sheet(rng, k))
+    for k in range(120 if not big else 600):
+        sheets.append(gen_chain_sheet(rng))
+    for k in range(60 if not big else 300):
+        sheets.append(gen_sibling_sheet(rng))
+        sheets.append(gen_floor_sheet(rng))
     texts = [sheet_text(it) for it, _ in sheets]
     impl = compile_sheets(pool, texts)
     lap("compiled")
@@ -249,7 +324,7 @@ def run(tier, seed):
     lines = []
     for items, _ in sheets:
         d = driver_items(items)
-        lines.append("ext run 1 1 1 " + d)        # as found
+        lines.append("ext run 1 1 0 " + d)        # the code as it stands: D16/D18 switches on, repaired walk in trim
         lines.append("ext expect " + d)
     outs = driver(lines)
     lap("model runs")
@@ -286,7 +361,8 @@ def run(tier, seed):
             fail(text, {"impl_observation": g[:2]}, tags)
             ck.count(text, False)
             continue
-        expect = [t for t in m_exp.split(" ")[1:] if t != "chain"] if m_exp.startswith("ok") else None
+        expect = [t for t in m_exp.split(" ")[1:] if t not in ("chain", "clash")] if m_exp.startswith("ok") else None
+        meta["clash"] = m_exp.startswith("ok") and "clash" in m_exp.split(" ")
         meta["chain"] = m_exp.startswith("ok") and "chain" in m_exp.split(" ")
         meta["ext_not"] = any(it[0] == "ext" and ":not(" in it[2] for it in items)
         # ---- errors the property demands
@@ -327,7 +403,7 @@ def run(tier, seed):
                 if (ms == "-") != (gs is None):
                     disagree({"case": text, "rule": rid, "model_observation": unhex(ms) if ms != "-" else None, "impl_observation": gs})
                 elif gs is not None and len(gs) <= 2500:
-                    follow.append(f"sel equiv {H(gs)} {ms} {seed * 53 + n} {NR} 0")
+                    follow.append(f"sel equivspec {H(gs)} {ms} {seed * 53 + n} {NR} 0")
                     fmeta.append(("tie", n, rid, gs, unhex(ms)))
         elif m_run == "unsupported":
             ck.cov["unsupported_dropped"] += 1
@@ -367,8 +443,17 @@ def run(tier, seed):
             if gs is not None:
                 follow.append(f"ext specific {H(S)} {H(gs)} {extenders}")
                 fmeta.append(("specific", n, rid, gs, S))
-            # order independence: the same rule in the reversed stylesheet
-            if sw[0] == "ok":
+                # judged only with one @extend whose extender is one compound: then the source specificity of every simple
+                # of the extender (mod.rs:989, first registration wins) is the extender's own specificity
+                if not meta["sel_pseudo"] and meta["n_ext"] == 1 and all("," not in it[2] for it in items if it[0] == "ext"):
+                    follow.append(f"ext floor {seed * 71 + n} {NR} {H(S)} {H(gs)} {d}")
+                    fmeta.append(("floor", n, rid, gs, S))
+            # order independence: the same rule in the reversed stylesheet.  Not judged when a complex extender takes
+            # part in a chain/cycle (`.y + .x {@extend .y}`): the credited set is an infinite unrolling of which every
+            # order emits a different finite part — the property only promises a subset there.
+            if meta["chain"] and meta["complex_extender"]:
+                ck.hist("direct:order-with-recursive-complex-extender(not judged)")
+            elif sw[0] == "ok":
                 gs2 = sw[1].get(rid, (None,))[0]
                 if (gs is None) != (gs2 is None):
                     fail(text, {"rule": rid, "impl_observation": gs, "reversed_order": gs2, "why": "rule present in one order only"},
@@ -402,14 +487,23 @@ def run(tier, seed):
             ck.hist(f"direct:{what}-not-judged({ans.split(' ')[0]})")
             continue
         if what == "tie":
-            disagree({"case": text, "rule": rid, "impl_observation": a, "model_observation": b,
-                      "differing_context": dec(ans)})
+            S0 = {it[1]: it[2] for it in sheets[n][0]}[rid]
+            if " ".join(S0.split()) in duplicated_selectors(sheets[n][0]):
+                fail(text, {"rule": rid, "impl_observation": a, "model_observation": b, "context": dec(ans),
+                            "why": "a rule whose selector is written twice was not extended (address-dependent)"}, ["too-little", "X6"])
+            else:
+                disagree({"case": text, "rule": rid, "impl_observation": a, "model_observation": b,
+                          "differing_context": dec(ans)})
         elif what in ("sup", "sub", "law"):
             why = {"sup": "the credited original matches a context the rewritten selector does not (extension matches too little)",
                    "sub": "the rewritten selector matches a context the credited original does not (extension matches too much)",
                    "law": "original selector matches a context the rewritten one does not (first law)"}[what]
             fail(text, {"rule": rid, "original": b, "impl_observation": a, "context": dec(ans), "why": why},
                  [{"sup": "too-little", "sub": "too-much", "law": "first-law"}[what]])
+        elif what == "floor":
+            fail(text, {"rule": rid, "impl_observation": a, "original": b, "context": dec(ans),
+                        "why": "second law: where the extender put in place of its target matches, no matching complex of the output "
+                               "is as specific as the extender"}, ["specificity-floor"])
         elif what == "specific":
             fail(text, {"rule": rid, "impl_observation": a, "original": b, "why": "a generated complex is less specific than every extender"},
                  ["specificity"])
@@ -417,46 +511,47 @@ def run(tier, seed):
             fail(text, {"rule": rid, "impl_observation": a, "reversed_order": b, "context": dec(ans),
                         "why": "rule matches different elements when the stylesheet order is reversed"}, ["order"])
     for n, ((items, meta), text) in enumerate(zip(sheets, texts)):
-        if impl[n][0] == "ok" and not outs[2 * n + 1].split(" ")[1:]:
+        if impl[n][0] == "ok" and not [t for t in outs[2 * n + 1].split(" ")[1:] if t not in ("chain", "clash")]:
             ck.count(text, bool(meta.get("rewritten")) and judged.get(n, False))
 
     # class tags of the two known multi-extension deviations (computed, not guessed):
-    #   X1: the stylesheet has an extension chain (a target occurs in an extender) and the failure is a missing match / an order difference
-    #   X2: no chain, extensions with >= 2 different targets, the failure is a missing match / an order difference, and — whenever the
-    #       stylesheet is inside the modelled fragment — the Lean model of the incremental algorithm reproduces grass's selectors
-    #   X3: a complex extender with a sibling combinator, the rewritten selector matches too much
+    #   X2: >= 2 @extends, some unification of the stylesheet can fail (two different types / ids / pseudo-elements occur), the
+    #       failure is a missing match / an order difference, and — inside the modelled fragment — the model reproduces grass
+    #   X3: a complex extender in a stylesheet using both `+` and `~`, the rewritten selector matches too much
     tie_ok = {}
     for (what, n, rid, a, b), ans in zip(fmeta, fouts):
         if what == "tie":
             tie_ok[n] = tie_ok.get(n, True) and ans.startswith("ok holds")
     index_of = {t: k for k, t in enumerate(texts)}
+    x3 = set()
     for i, (_, case, payload, tags) in enumerate(failing):
         n = index_of.get(case, -1)
         if n < 0 or not tags:
             continue
         meta = sheets[n][1]
-        distinct_targets = len({it[3] for it in sheets[n][0] if it[0] == "ext"})
-        if tags[0] in ("too-little", "order"):
-            if meta.get("chain"):
-                tags.append("X1")
-            elif distinct_targets >= 2 and (tie_ok.get(n, False) if outs[2 * n].startswith("ok") else outs[2 * n] == "unsupported"):
-                tags.append("X2")
-                payload["model_reproduces_grass"] = outs[2 * n].startswith("ok")
-        elif tags[0] == "too-much" and meta["complex_extender"] and any(
-                it[0] == "ext" and ("+" in it[2] or "~" in it[2]) for it in sheets[n][0]):
+        sheet_txt = " ".join(it[2] for it in sheets[n][0])
+        if tags[0] == "too-much" and meta["complex_extender"] and "+" in sheet_txt and "~" in sheet_txt:
             tags.append("X3")
+            x3.add((n, payload.get("rule")))
+    for i, (_, case, payload, tags) in enumerate(failing):
+        n = index_of.get(case, -1)
+        if n < 0 or not tags or tags[0] not in ("too-little", "order"):
+            continue
+        meta = sheets[n][1]
+        S0 = {it[1]: it[2] for it in sheets[n][0]}.get(payload.get("rule"), "")
+        if "X6" in tags:
+            pass
+        elif " ".join(S0.split()) in duplicated_selectors(sheets[n][0]):
+            # X6: two style rules with equal selectors — the second one is sometimes not registered (hash by address, equality by value)
+            tags.append("X6")
+        elif tags[0] == "order" and (n, payload.get("rule")) in x3:
+            tags.append("X3")          # one of the two orders contains the wrongly woven complex
+        elif meta["n_ext"] >= 2 and meta.get("clash") and (not outs[2 * n].startswith("ok") or tie_ok.get(n, False)):
+            # X2: an alternative dropped by a failed unification is never reconsidered (incremental extension); possible only
+            # when some unification of the stylesheet can fail (Grass.Extend.canClash) and several @extends interact
+            tags.append("X2")
+            payload["model_reproduces_grass"] = outs[2 * n].startswith("ok")
         payload["tags"] = tags
-    # S1 reaching trim: a failure that disappears when the model trims with the specified walk
-    s1 = [(i, index_of[case]) for i, (_, case, payload, tags) in enumerate(failing)
-          if case in index_of and tags and tags[0] in ("too-little", "first-law", "order") and "X1" not in tags]
-    if s1:
-        extra = driver(["ext run 1 1 0 " + driver_items(sheets[n][0]) for _, n in s1])
-        for (i, n), spec_run in zip(s1, extra):
-            af = outs[2 * n]
-            if af.startswith("ok") and spec_run.startswith("ok") and af != spec_run:
-                failing[i][3].append("S1-trim")
-                failing[i][2]["model_specified_walk"] = [unhex(x) if x != "-" else None for x in spec_run.split(" ")[1:]]
-                failing[i][2]["tags"] = failing[i][3]
 
     failing.sort(key=lambda f: f[0])
     reported = 0
@@ -471,7 +566,7 @@ def run(tier, seed):
     ck.cov["failing_samples_unattributed"] = [
         {"case": c, "tags": t, "why": p.get("why"), "rule": p.get("rule"), "impl": str(p.get("impl_observation"))[:300],
          "context": p.get("context"), "reversed": p.get("reversed_order"), "extender": p.get("extender")}
-        for _, c, p, t in failing if not set(t) & {"D16", "D18", "X1", "X2", "X3", "X4", "X5"}][:80]
+        for _, c, p, t in failing if not set(t) & {"D16", "D18", "X2", "X3", "X5", "X6"}][:80]
     ck.cov["failing_samples"] = [{"case": c, "tags": t, "why": p.get("why"), "rule": p.get("rule"), "impl": str(p.get("impl_observation"))[:160],
                                   "context": p.get("context")} for _, c, p, t in failing[:40]]
     if ck.cov["model_disagreements"] and not reported:
